@@ -122,7 +122,8 @@ def handlers : List (String × Handler) := [
     pure (exceptToJson (fun (t' : SRTree.Node) => Json.mkObj [
       ("items", Json.arr (flatNode t').toArray),
       ("parsed", exceptToJson (fun (p : SRTree.Node) => Json.mkObj [
-          ("items", Json.arr (flatNode p).toArray)]) (SRTree.parseDoc (SRTree.writeDoc own t')))]) (SRTree.convertRoot t))),
+          ("items", Json.arr (flatNode p).toArray)]) (SRTree.parseDocT (fun act v => "CHANGED(" ++ act ++ ")" ++ v) (SRTree.writeDoc own t')))])
+      (SRTree.convertRootT (fun act v => "CHANGED(" ++ act ++ ")" ++ v) t))),
   ("find", fun j => do
     let tree ← parseItem (← j.getObjVal? "tree")
     let qn ← optStr j "name"
